@@ -6,10 +6,15 @@
 // whose random offset is mirrored (same engine, seed and order of draws).
 // Operands: init_state (d x N), init_lw (N x 1), lik (K x N), shift (K x d),
 // a (1 x 1), words freeze / skipp / skipc / likvalid (K tokens 0|1), int seed.
+// Histories with meta likmodel=gauss use the library's GaussianLikelihood over a
+// linear measurement model (H, Rm, measurements ys (K x m), scale (1 x 1)); there
+// "likvalid" says whether measure() succeeds.  The likelihood vector of every step
+// is read back through BootstrapCorrection::getLikelihood() and printed.
 #define VF_MAIN
 #include "common.hpp"
 #include <BayesFilters/BootstrapCorrection.h>
 #include <BayesFilters/DrawParticles.h>
+#include <BayesFilters/GaussianLikelihood.h>
 #include <BayesFilters/LikelihoodModel.h>
 #include <BayesFilters/MeasurementModel.h>
 #include <BayesFilters/ParticleSetInitialization.h>
@@ -61,12 +66,37 @@ struct ScriptedMeasurement : public MeasurementModel {
     std::pair<bool, Data> innovation(const Data&, const Data&) const override { return std::make_pair(false, Data()); }
 };
 
+// linear measurement model y = H x + v, v ~ N(0, Rm), serving the case's measurements
+struct GaussMeasurement : public ScriptedMeasurement {
+    std::pair<bool, Data> measure(const Data&) const override {
+        if (!flag("likvalid", g_step)) return std::make_pair(false, Data());
+        return std::make_pair(true, Data(MatrixXd(g_case->mat("ys").row(g_step).transpose())));
+    }
+    std::pair<bool, Data> predictedMeasure(const Ref<const MatrixXd>& cur) const override {
+        MatrixXd p = g_case->mat("H") * cur;
+        return std::make_pair(true, Data(std::move(p)));
+    }
+    std::pair<bool, Data> innovation(const Data& pred, const Data& meas) const override {
+        MatrixXd inn = -(any::any_cast<MatrixXd>(pred).colwise() - any::any_cast<MatrixXd>(meas).col(0));
+        return std::make_pair(true, Data(std::move(inn)));
+    }
+    std::pair<bool, MatrixXd> getNoiseCovarianceMatrix() const override { return std::make_pair(true, g_case->mat("Rm")); }
+};
+
 static int g_lik_calls = 0;
 struct ScriptedLikelihood : public LikelihoodModel {
     std::pair<bool, VectorXd> likelihood(const MeasurementModel&, const Ref<const MatrixXd>&) override {
         g_lik_calls++;
         if (!flag("likvalid", g_step)) return std::make_pair(false, VectorXd::Zero(1));
         return std::make_pair(true, VectorXd(g_case->mat("lik").row(g_step).transpose()));
+    }
+};
+
+struct CountingGaussianLikelihood : public GaussianLikelihood {
+    explicit CountingGaussianLikelihood(double s) : GaussianLikelihood(s) {}
+    std::pair<bool, VectorXd> likelihood(const MeasurementModel& m, const Ref<const MatrixXd>& x) override {
+        g_lik_calls++;
+        return GaussianLikelihood::likelihood(m, x);
     }
 };
 
@@ -112,11 +142,15 @@ int main() {
         g_case = &c;
         const long N = c.mi("N"), dl = c.mi("dl"), dc = c.mi("dc"), K = c.mi("K");
         const unsigned seed = (unsigned)c.integer("seed");
-        ScriptedMeasurement* meas = new ScriptedMeasurement();
+        const bool gauss = c.m("likmodel") == "gauss";
+        ScriptedMeasurement* meas = gauss ? new GaussMeasurement() : new ScriptedMeasurement();
         LoggingResampling* res = new LoggingResampling(seed);
         std::unique_ptr<PFPrediction> pred(new DrawParticles(std::unique_ptr<StateModel>(new ScriptedStateModel())));
-        std::unique_ptr<PFCorrection> corr(new BootstrapCorrection(std::unique_ptr<MeasurementModel>(meas),
-                                                                   std::unique_ptr<LikelihoodModel>(new ScriptedLikelihood())));
+        std::unique_ptr<LikelihoodModel> likm;
+        if (gauss) likm.reset(new CountingGaussianLikelihood(c.mat("scale")(0, 0)));
+        else likm.reset(new ScriptedLikelihood());
+        BootstrapCorrection* bc = new BootstrapCorrection(std::unique_ptr<MeasurementModel>(meas), std::move(likm));
+        std::unique_ptr<PFCorrection> corr(bc);
         ProbeSIS sis((unsigned)N, (std::size_t)dl, (std::size_t)dc, std::unique_ptr<ParticleSetInitialization>(new ScriptedInit()),
                      std::move(pred), std::move(corr), std::unique_ptr<Resampling>(res));
         g_step = 0; g_lik_calls = 0;
@@ -140,6 +174,12 @@ int main() {
             vf::out_int("likcalls" + sk, g_lik_calls - lc0);
             vf::out_int("freezecalls" + sk, meas->freeze_calls - fc0);
             vf::out_num("neff" + sk, res->last_neff);
+            if (g_lik_calls > lc0) {
+                bool lvalid; VectorXd lvec;
+                { vf::Entry e("BootstrapCorrection::getLikelihood"); std::tie(lvalid, lvec) = bc->getLikelihood(); }
+                vf::out_int("lv" + sk, lvalid ? 1 : 0);
+                if (lvalid) vf::out_mat("lik" + sk, lvec);
+            }
             if (res->resample_calls > rc0) {
                 vf::out_num("u1_" + sk, res->last_u1);
                 vf::out_mat("par" + sk, res->last_parents.cast<double>());
